@@ -31,7 +31,7 @@ func init() {
 			">= max_fails failures are certainly remembered must avoid A, one made while fewer than max_fails can possibly be remembered must use A; counters never negative and 0 at quiescence; " +
 			"consecutive selections of one connection >= try_interval apart, failure not before try_duration, last dial error reported, success when an upstream returns; refusing peer unselected within a " +
 			"bounded number of intervals and reselected after it returns (canary-guarded); the (max+1)-th held connection never reaches the full upstream and the next one does after a release. " +
-			"non-trivial = the history contains both outcomes; distinct = hash(history parameters, outcome signature). history reload-shared: upstreams {A, limit 1} and {A, M}; one connection held through the first; the configuration is reloaded 2-4 times; in every generation a probe must go to the second upstream (reaches M) and A's pool entry must count the held connection; after it ends the first upstream takes a connection again. history active-passive: both checkers configured; a dial fails right after the upstream stopped accepting (remembered for fail_duration 3 s), the active checker marks it down and, after it accepts again, up: until fail_duration has passed probes avoid the upstream, its failure count stays within 0..1, afterwards it is selected again. after every retry history no upstream counts an open connection.",
+			"non-trivial = the history contains both outcomes; distinct = hash(history parameters, outcome signature). history reload-shared: upstreams {A, limit 1} and {A, M}; one connection held through the first; the configuration is reloaded 2-4 times; in every generation a probe must go to the second upstream (reaches M) and A's pool entry must count the held connection; after it ends the first upstream takes a connection again. history active-passive: both checkers configured; a dial fails right after the upstream stopped accepting (remembered for fail_duration 3 s), the active checker marks it down and, after it accepts again, up: until fail_duration has passed probes avoid the upstream, its failure count stays within 0..1, afterwards it is selected again. after every retry history no upstream counts an open connection. history active-reload: the active checker has marked a refusing upstream down, the configuration is reloaded and the old instance cleaned up while it still refuses: probes keep going to the other upstream; after it accepts again it returns.",
 		Assumptions: []string{
 			"boundary instants are never asserted: margins >= D/3 separate 'certainly remembered' from 'certainly forgotten'",
 			"simultaneous opens racing between selection and counting are not asserted (connections are opened sequentially and confirmed established)",
